@@ -263,26 +263,31 @@ class MovingWindow(BackgroundService):
         if self._buffer.count_valid() == 0:
             raise IndexError("The buffer is empty.")
 
+        timestamp: datetime | None
         if isinstance(key, datetime):
-            assert self._buffer.oldest_timestamp is not None
-            assert self._buffer.newest_timestamp is not None
-            if (
-                key < self._buffer.oldest_timestamp
-                or key > self._buffer.newest_timestamp
-            ):
-                raise IndexError(
-                    f"Timestamp {key} is out of range [{self._buffer.oldest_timestamp}, "
-                    f"{self._buffer.newest_timestamp}]"
-                )
-            return self._buffer[self._buffer.to_internal_index(key)]
-
-        if isinstance(key, int):
+            timestamp = key
+        elif isinstance(key, int):
             _logger.debug("Returning value at index %s ", key)
             timestamp = self._buffer.get_timestamp(key)
-            assert timestamp is not None
-            return self._buffer[self._buffer.to_internal_index(timestamp)]
+        else:
+            raise TypeError("Key has to be either a timestamp or an integer.")
 
-        raise TypeError("Key has to be either a timestamp or an integer.")
+        assert timestamp is not None
+        assert self._buffer.oldest_timestamp is not None
+        assert self._buffer.newest_timestamp is not None
+        if (
+            timestamp < self._buffer.oldest_timestamp
+            or timestamp > self._buffer.newest_timestamp
+        ):
+            raise IndexError(
+                f"Key {key} is out of range [{self._buffer.oldest_timestamp}, "
+                f"{self._buffer.newest_timestamp}]"
+            )
+        # Samples in a gap were never written (or were written as missing), the
+        # underlying buffer might still hold outdated values for them.
+        if self._buffer.is_missing(self._buffer.normalize_timestamp(timestamp)):
+            return np.nan
+        return self._buffer[self._buffer.to_internal_index(timestamp)]
 
     def window(
         self,
